@@ -161,7 +161,7 @@ PROPS["C12"] = {
 }
 PROPS["C01"] = {
     "technique": 'Lean 4 proof of the pool protocol (any pool content, any interleaving) + `decide` theorems over go/ast facts regenerated from the source + byte-for-byte correspondence of the Lean canonicaliser + repeat/concurrent/other-process differential',
-    "suites": [{"name": "fpdet", "timeout": 3000}, {"name": "canon", "timeout": 3000}],
+    "suites": [{"name": "fpdet", "quick": 6, "thorough": 40, "timeout": 3000}, {"name": "canon", "timeout": 3000}],
     "lean_modules": ["SfwModel.Props.C01", "SfwModel.Props.C01Facts", "SfwModel.Props.C10"],
     "required_theorems": ["C01_pool_history_independent", "C01_history", "C01_concurrent_results_fresh",
                           "C01_reset_covers_fields", "C01_scratch_reset_covers_maps", "C01_no_process_state",
@@ -174,7 +174,7 @@ PROPS["C01"] = {
 PROPS["C02"] = {
     "technique": 'Lean 4 theorems on each normalisation of the Lean canonicaliser (tied byte for byte to the real one) + refactoring catalogue on generated Go with real fingerprints',
     "also": ["C01"],   # the shared canon correspondence suite tags its violations C01
-    "suites": [{"name": "refactor", "timeout": 3000}, {"name": "canon", "timeout": 3000}],
+    "suites": [{"name": "refactor", "quick": 8, "thorough": 60, "timeout": 3000}, {"name": "canon", "timeout": 3000}],
     "lean_modules": ["SfwModel.Props.C02", "SfwModel.Props.C02Limits"],
     "required_theorems": ["C02_default_policy_matches_source", "C02_self_reference_name_free", "C02_commutative_operands_exchange", "C02_noncommutative_keeps_order",
                           "C02_flip_decision", "C02_flip_meets", "C02_flip_idempotent", "C02_string_literals_abstracted",
@@ -187,7 +187,7 @@ PROPS["C02"] = {
 PROPS["C03"] = {
     "technique": 'Lean 4 theorems on every normalisation guard + native execution of (P, edited Q) pairs as the behavioural oracle for fingerprint collisions',
     "also": ["C01"],   # the shared canon correspondence suite tags its violations C01
-    "suites": [{"name": "collide", "timeout": 3000}, {"name": "canon", "timeout": 3000}],
+    "suites": [{"name": "collide", "quick": 8, "thorough": 50, "timeout": 3000}, {"name": "canon", "timeout": 3000}],
     "lean_modules": ["SfwModel.Props.C03", "SfwModel.Props.C03Names"],
     "required_theorems": ["C03_commutative_guard", "C03_noncommutative_ops", "C03_swap_guard", "C03_no_swap_on_floats",
                           "C03_hoist_guard", "C03_recurrences_of_different_loops_differ", "C03_callee_names_distinct",
@@ -200,7 +200,7 @@ PROPS["C03"] = {
 }
 PROPS["C04"] = {
     "technique": "Lean 4 proof of CompareFunctions' decision logic + native execution of (old, new) pairs against the real diff status",
-    "suites": [{"name": "collide", "timeout": 3000}],
+    "suites": [{"name": "collide", "quick": 8, "thorough": 50, "timeout": 3000}],
     "lean_modules": ["SfwModel.Props.C04", "SfwModel.Props.C09Zipper"],
     "required_theorems": ["C04_preserved_iff", "C04_identical_copy_preserved", "C04_oversized_never_zipper_preserved",
                           "C04_unmatched_means_modified", "C04_zipper_preserved_same_size", "C04_constant_marker_was_unsound"],
